@@ -48,19 +48,51 @@ def build_harness():
 
 
 def kv(cmd, requests, timeout=600, per_request_timeout=30, args=()):
-    """Runs `kv <cmd>` over a list of request dicts; returns the list of response dicts."""
+    """Runs `kv <cmd>` over a list of request dicts; returns the list of response dicts.
+    If the process is killed by a signal (stack overflow / abort inside the code under test), the request that was being
+    served is answered with {"res": {"t": "abort", ...}} and the remaining requests are served by a fresh process: an abort
+    of the code under test is data, not a tool error."""
     build_harness()
-    inp = "\n".join(json.dumps(r) for r in requests) + "\n"
     env = dict(os.environ, KV_TIMEOUT_S=str(per_request_timeout))
-    try:
-        p = subprocess.run([KV, cmd, *args], input=inp, capture_output=True, text=True, timeout=timeout, env=env)
-    except subprocess.TimeoutExpired:
-        raise ToolError(f"kv {cmd} did not finish within {timeout}s")
-    if p.returncode != 0:
-        raise ToolError(f"kv {cmd} exited with {p.returncode}: {p.stderr[-2000:]}")
-    out = [json.loads(l) for l in p.stdout.split("\n") if l.strip()]
+    out = []
+    todo = list(requests)
+    deadline = time.time() + timeout
+    aborts = 0
+    while todo:
+        inp = "\n".join(json.dumps(r) for r in todo) + "\n"
+        try:
+            p = subprocess.run([KV, cmd, *args], input=inp, capture_output=True, text=True,
+                               timeout=max(10, deadline - time.time()), env=env)
+        except subprocess.TimeoutExpired:
+            raise ToolError(f"kv {cmd} did not finish within {timeout}s")
+        got = []
+        for l in p.stdout.split("\n"):
+            if not l.strip():
+                continue
+            try:
+                got.append(json.loads(l))
+            except json.JSONDecodeError:
+                if p.returncode >= 0:
+                    raise ToolError(f"kv {cmd}: undecodable response line {l[:200]!r}")
+                break       # a line cut off by the abort
+        if p.returncode == 0:
+            if len(got) != len(todo):
+                raise ToolError(f"kv {cmd}: {len(todo)} requests but {len(got)} responses; stderr: {p.stderr[-1000:]}")
+            out += got
+            break
+        if p.returncode > 0 or len(got) >= len(todo):
+            raise ToolError(f"kv {cmd} exited with {p.returncode}: {p.stderr[-2000:]}")
+        # killed by a signal while serving request number len(got)
+        aborts += 1
+        if aborts > 50:
+            raise ToolError(f"kv {cmd}: more than 50 aborts in one batch; last stderr: {p.stderr[-500:]}")
+        culprit = todo[len(got)]
+        out += got
+        out.append({"id": culprit.get("id"), "res": {"t": "abort", "signal": -p.returncode, "msg": (p.stderr or "")[-300:]},
+                    "panic": {"msg": "process aborted with signal %d" % -p.returncode, "loc": ""}})
+        todo = todo[len(got) + 1:]
     if len(out) != len(requests):
-        raise ToolError(f"kv {cmd}: {len(requests)} requests but {len(out)} responses; stderr: {p.stderr[-1000:]}")
+        raise ToolError(f"kv {cmd}: {len(requests)} requests but {len(out)} responses")
     for o in out:
         if "tool_error" in o:
             raise ToolError(f"kv {cmd}: {o['tool_error']}")
